@@ -193,6 +193,8 @@ func c18ChildA(t *testing.T) {
 		os.Exit(3)
 	}
 
+	childWatchdog(150*time.Second, func(st string) { ev.add(c18Event{Ev: "error", Msg: "A: watchdog, goroutines:\n" + st}) })
+
 	// Hook handler: gate at processAccept entry (one token per block, handed out
 	// by the driver), "processed" signal after the notifications, exit at (P,k).
 	tokens := make(chan struct{}, n+1)
@@ -307,6 +309,7 @@ func c18ChildB(t *testing.T) {
 	dir := os.Getenv("C18_DIR")
 	ctx := context.Background()
 	rep := nodeReport{}
+	childWatchdog(150*time.Second, func(st string) { fmt.Println("B: watchdog, goroutines:\n" + st) })
 	start := time.Now()
 	nd, initErr, initPanic := c18Node(t, dir, "b")
 	rep.InitMillis = time.Since(start).Milliseconds()
@@ -456,7 +459,16 @@ func runC18Case(t *testing.T, r *kit.Run, c c18Case, genesisBytes []byte) {
 		w.AEvents = append(w.AEvents, e)
 	}
 	if resA.TimedOut || resA.ExitCode != 77 {
-		r.Inconclusive("%s: child A did not crash at the armed point (exit %d, timed out %v): %s", c, resA.ExitCode, resA.TimedOut, tail(resA.Output, 1500))
+		msg := ""
+		for _, e := range events {
+			if e.Ev == "error" {
+				msg += e.Msg + " "
+			}
+		}
+		if path := os.Getenv("VERIF_C18_KEEP"); path != "" && msg != "" {
+			_ = os.WriteFile(filepath.Join(path, "c18-A-"+strings.ReplaceAll(c.String(), "/", "_")+".txt"), []byte(msg), 0o644)
+		}
+		r.Inconclusive("%s: child A did not crash at the armed point (exit %d, timed out %v): %s %s", c, resA.ExitCode, resA.TimedOut, tail(msg, 1500), tail(resA.Output, 1500))
 		return
 	}
 	r.Count("crashes_injected", 1)
@@ -464,7 +476,10 @@ func runC18Case(t *testing.T, r *kit.Run, c c18Case, genesisBytes []byte) {
 	r.Count("accepts_started_before_crash", int(w.LastStart))
 
 	resB := kit.RunChild("TestC18Child", append([]string{"VERIF_CHILD=c18b"}, env...), 4*time.Minute)
-	if resB.TimedOut {
+	if resB.TimedOut || resB.ExitCode == 4 {
+		if path := os.Getenv("VERIF_C18_KEEP"); path != "" {
+			_ = os.WriteFile(filepath.Join(path, "c18-B-"+strings.ReplaceAll(c.String(), "/", "_")+".txt"), []byte(resB.Output), 0o644)
+		}
 		r.Inconclusive("%s: restart did not finish within the watchdog: %s", c, tail(resB.Output, 3000))
 		return
 	}
